@@ -263,6 +263,46 @@ theorem C22_total_recover_toc (H : Bytes → Bytes) (dec : Bytes → BB TocV) (h
         | some found => rfl
         | none => exact scanRanges_safe H dec mmap _
 
+/-! #### how much the scan hashes (the known finding `quadratic-toc-scan-exceeds-time-limit`) -/
+
+/-- bytes fed to blake3 by `scanLoop` over the offsets `scanStart .. scanStart + k` when no candidate is
+    accepted: every offset whose tail has at least 32 bytes hashes that whole tail (body ++ 32 zero bytes) -/
+def scanWork (len scanStart : Nat) : Nat → Nat
+  | 0 => 0
+  | k + 1 => (if len - (scanStart + k) ≥ 32 then len - (scanStart + k) else 0) + scanWork len scanStart k
+
+theorem scanWork_mono (len s : Nat) : ∀ k j, k ≤ j → scanWork len s k ≤ scanWork len s j
+  | k, 0, h => by have : k = 0 := by omega
+                  subst this; exact Nat.le_refl _
+  | k, j + 1, h => by
+    by_cases hk : k = j + 1
+    · subst hk; exact Nat.le_refl _
+    · have := scanWork_mono len s k j (by omega)
+      simp only [scanWork]; omega
+
+theorem scanWork_exact (len : Nat) : ∀ k, k + 31 ≤ len → 2 * scanWork len 0 k + k * k = k * (2 * len + 1)
+  | 0, _ => by simp [scanWork]
+  | k + 1, h => by
+    have ih := scanWork_exact len k (by omega)
+    have e1 : (k + 1) * (k + 1) = k * k + 2 * k + 1 := by
+      rw [Nat.add_mul, Nat.mul_add, Nat.mul_one, Nat.one_mul]; omega
+    have e2 : (k + 1) * (2 * len + 1) = k * (2 * len + 1) + (2 * len + 1) := by
+      rw [Nat.add_mul, Nat.one_mul]
+    simp only [scanWork, Nat.zero_add]
+    rw [if_pos (by omega), e1, e2]
+    omega
+
+/-- **C22_scan_work_quadratic** — scanning a whole buffer of `len ≤ MAX_TOC_BYTES` bytes in which nothing is
+    accepted hashes at least `(len - 31) * (len + 32) / 2` bytes: quadratic, not a hang, but beyond any
+    fixed time limit for files of a few MiB. -/
+theorem C22_scan_work_quadratic (len : Nat) (h : 32 ≤ len) :
+    2 * scanWork len 0 len + (len - 31) * (len - 31) ≥ (len - 31) * (2 * len + 1) := by
+  have hm := scanWork_mono len 0 (len - 31) len (by omega)
+  have he := scanWork_exact len (len - 31) (by omega)
+  omega
+
+example : scanWork 100 0 100 = 4554 := by decide
+
 /-! ### D6 `locate_footer_window` -/
 
 theorem windowLoop_safe (H : Bytes → Bytes) (mmap : Bytes) (hlen : mmap.length < 2^63) :
